@@ -73,6 +73,7 @@ package server
 //@   claims at-call
 //@   at-call nonblockSendChannel( requires peer.State() == bgp.BGP_FSM_ESTABLISHED
 
+//@ props C08
 // the hold time of a session is the smaller of the configured one and the one in the peer's OPEN; keepalives go
 // out every third of it when that is less than configured
 //@ func negotiateTimers
